@@ -348,6 +348,9 @@ def run(rep, tier):
     except KeyError as e:
         rep.bad("R13.6", "anchor", str(e))
     origin_traits(rep, F)
+    # the "documented origin" of scale / skew / rotate_around_center is the centre of bounding_rect(): the bounding-box tables (shared with C19)
+    from . import c19
+    c19.bbox_tables(rep, F, rule="R13.8")
 
 
 def origin_traits(rep, F):
